@@ -9,11 +9,58 @@ from terms import origin, show, rvalue_origin, calls_in, leaves, control_deps, b
 
 # ---------------------------------------------------------------- helpers
 
+ACCESSORS = {}      # callee path -> field of D it hands out (see init_accessors)
+_ACCESSOR_OK_CALLS = ("Option::<T>::as_ref", "Option::<T>::as_mut", "Option::<T>::expect", "Option::<T>::unwrap",
+                      "Option::<&T>::expect", "Deref::deref", "DerefMut::deref_mut", "Option::<T>::as_deref", "Option::<T>::as_deref_mut")
+
+
+def init_accessors(F):
+    """field accessors of the database struct: methods taking only `self` whose every returned value is a reference
+    into exactly one field of `*self`, reached through Option::as_ref/as_mut/expect only.  A call to one is read as
+    the field itself, so `self.receipts_mut().commit(..)` is the same rule instance as
+    `self.db_tx_receipt.as_mut().expect(..).commit(..)`."""
+    ACCESSORS.clear()
+    try:
+        db = roles.database_struct(F)
+    except Exception:
+        return
+    for f in F.fns.values():
+        if f.kind != "method" or f.j.get("self_ty") != db["name"] or f.j.get("trait") or not f.blocks:
+            continue
+        if f.j["mir"]["argc"] != 1 or not (f.j.get("output") or "").startswith("&"):
+            continue
+        vals = [origin(f, {"l": 0, "k": "copy"})]
+        if vals[0][0] == "phi":
+            vals = list(vals[0][1])
+        flds = set()
+        ok = bool(vals)
+        for v in vals:
+            fl = self_fields(v)
+            if len(set(fl)) != 1:
+                ok = False
+                break
+            flds.add(fl[0])
+            for c in calls_in(v):
+                if not any(c[1].endswith(x) for x in _ACCESSOR_OK_CALLS):
+                    ok = False
+        if ok and len(flds) == 1:
+            ACCESSORS[f.name] = flds.pop()
+
+
 def self_fields(t, out=None):
-    """names of fields of `*self` (param #1) mentioned in a term"""
+    """names of fields of `*self` (param #1) mentioned in a term (a call to a field accessor of D counts as the field)"""
     if out is None:
         out = []
     k = t[0]
+    if k == "call" and ACCESSORS and t[2]:
+        nm = t[4] if len(t) > 4 and isinstance(t[4], str) and t[4] in ACCESSORS else t[1]
+        if nm in ACCESSORS:
+            b = t[2][0]
+            while b[0] in ("deref", "ref", "cast"):
+                b = b[1]
+            if b[0] == "param" and b[1] == 1:
+                out.append(ACCESSORS[nm])
+                return out
     if k == "field":
         b = t[1]
         while b[0] in ("deref", "ref", "cast"):
@@ -102,8 +149,32 @@ LIFECYCLE = {
 }
 
 
-def clause_tables(R, F, dmethod):
-    """every table field is visited by the life-cycle method on every success path"""
+def fields_touched(F, dmethods, depth=4):
+    """table fields of D that the given D methods (and the D methods they call on self) call anything on"""
+    db = roles.database_struct(F)
+    tfs = {f for (f, _, _) in roles.table_fields(F)}
+    out, seen = set(), set()
+    work = [(db_fn(F, m), 0) for m in dmethods]
+    while work:
+        fn, d = work.pop()
+        if fn is None or fn.id in seen:
+            continue
+        seen.add(fn.id)
+        for body in [fn] + F.descendants(fn.id):
+            for c in body.calls():
+                if body.is_cleanup(c.bb):
+                    continue
+                fl = recv_field(body, c) if body is fn else None
+                if fl in tfs:
+                    out.add(fl)
+                g = F.fns.get(c.target_id) if c.target_id else None
+                if g is not None and g.blocks and g.j.get("self_ty") == db["name"] and d < depth:
+                    work.append((g, d + 1))
+    return out
+
+
+def clause_tables(R, F, dmethod, only_fields=None):
+    """every table field (or every one of `only_fields`) is visited by the life-cycle method on every success path"""
     fn = db_fn(F, dmethod)
     if fn is None:
         R.violation("TABLES", "database", "TABLES|%s|missing" % dmethod, "database method %s not found" % dmethod)
@@ -113,7 +184,7 @@ def clause_tables(R, F, dmethod):
     n = 0
     for (field, ttype, fullty) in tf:
         short = ttype.split("::")[-1]
-        if short not in want:
+        if short not in want or (only_fields is not None and field not in only_fields):
             continue
         meth = want[short]
         cs = calls_on_field(fn, {meth}).get(field, [])
@@ -743,7 +814,7 @@ def clause_retrieve_cache(R, F):
     fn = _tfn(F, _tt(F, "BlockCachedDatabase"), "retrieve_cache")
     ins = [c for c in fn.calls() if (c.method or "") == "insert" and recv_field(fn, c) == "cache" and not fn.is_cleanup(c.bb)]
     ck = [c for c in fn.calls() if (c.method or "") == "contains_key" and recv_field(fn, c) == "cache" and not fn.is_cleanup(c.bb)]
-    R.floor("retrieve_cache_inserts", len(ins), 2)
+    R.floor("retrieve_cache_inserts", len(ins), 1)
     for c in ins:
         # never overwrite: unreachable once contains_key == true
         ok = False
@@ -778,6 +849,35 @@ def clause_retrieve_cache(R, F):
          sample={"rule": "WIRE", "fn": "retrieve_cache", "seed": "C::new(db.get(key).decode)"})
     hist = [c for c in fn.calls() if (c.method or "") in ("get", "get_pinned") and recv_field(fn, c) == "cache_db"]
     R.ob(bool(hist), "WIRE", fn.where(), "WIRE|retrieve_cache|history-row", "persisted history (cache_db) is not consulted before seeding")
+    # ... and it is consulted unconditionally: every insertion of a history for an uncached key is dominated by the
+    # cache_db lookup (a key deleted from the value table still has a history that a rollback needs)
+    for c in ins:
+        R.ob(any(fn.dominates(h.bb, c.bb) for h in hist), "DOM-before", c.where(), "DOM-before|retrieve_cache|history<insert",
+             "a history is put into the cache on a path that did not look the key up in the persisted histories (cache_db): "
+             "an existing history can be replaced by a fresh one, and a rollback across that point restores the wrong value",
+             sample={"rule": "DOM-before", "fn": "retrieve_cache", "a": "cache_db.get(key)", "b": "cache.insert(key, history)"})
+    # a fresh history is started only when there is no persisted one
+    from terms import edge_dominates
+    for c in seeds:
+        ok = False
+        for b in range(len(fn.blocks)):
+            t = fn.term(b)
+            if t["k"] != "switch" or fn.is_cleanup(b):
+                continue
+            d = origin(fn, t["discr"])
+            if not (d[0] == "discr" and mentions(d, "cache_db")):
+                continue
+            names = d[3] if len(d) > 3 and d[3] else []
+            none_vals = [val for (n, val) in names if n == "None"]
+            for v, tb in t["targets"]:
+                if v in none_vals and edge_dominates(fn, (b, tb), c.bb):
+                    ok = True
+            if t.get("otherwise") is not None and none_vals and all(v not in none_vals for v, tb in t["targets"]):
+                if edge_dominates(fn, (b, t["otherwise"]), c.bb):
+                    ok = True
+        R.ob(ok, "GUARD", c.where(), "GUARD|retrieve_cache|fresh-only-if-no-history",
+             "a fresh history (C::new) is started although the persisted-history lookup did not say None",
+             sample={"rule": "GUARD", "fn": "retrieve_cache", "fresh_history_iff": "cache_db.get(key) is None"})
 
 
 def clause_who_touches_disk(R, F, E):
